@@ -463,7 +463,11 @@ func (l *Lexer) NextToken() token.Token {
 		}
 	}
 
-	l.readChar()
+	// An unterminated string, comment or long string stops at the end of the
+	// input: there is nothing more to consume, and the column must not move.
+	if l.char != 0x00 {
+		l.readChar()
+	}
 	t.File = l.file
 
 	return t
